@@ -2,15 +2,34 @@
 (***************************************************************************)
 (* Trace validation for C19.  A trace is a sequence of                     *)
 (*   Graph  - the graph the real graph DB was loaded with (also the Reset  *)
-(*            line separating the traces of a batch)                       *)
-(*   Query  - a request and what the real findPath + newRoute returned     *)
-(*            (route field by field, or found = 0)                         *)
+(*            line separating the traces of a batch; fam = the generator   *)
+(*            family, "rand" or "diamond")                                 *)
+(*   Query  - a request (with the ENTRY POINT it was served by: req.via =  *)
+(*            findPath+newRoute | ChannelRouter.FindRoute |                *)
+(*            paymentSession.RequestRoute | ChannelRouter.BuildRoute, the  *)
+(*            pathfinding node req.self and the possibly foreign source    *)
+(*            req.src) and what the real code returned: the route field by *)
+(*            field incl. the payload records of every hop (payment_data   *)
+(*            total, metadata length, encrypted data length, path key,     *)
+(*            total_amount_msat, custom records) and the Go-side oracles   *)
+(*            size / packed / onionOk, or found = 0                        *)
 (* Every line is the corresponding action of Route.tla.  The real          *)
 (* pathfinder is judged by the invariants Sound* (= ValidRoute, clause by  *)
-(* clause, so that a rejected trace names the clause).  After every        *)
-(* answered Query the payment simulation of Route.tla runs as silent steps *)
-(* (Send, Forward.., Receive): PaidThrough demands that no node on the way *)
-(* refuses the HTLC under the forwarding rules of C09.                     *)
+(* clause, so that a rejected trace names the clause):                     *)
+(*   SoundFinalPayload  the last hop carries exactly what the request      *)
+(*                      wants delivered, no other hop carries any of it    *)
+(*   SoundPayload       the payloads - sizes computed by Route.tla from    *)
+(*                      the recorded payload contents - fit 1300 bytes and *)
+(*                      sphinx accepted the route                          *)
+(*   SizeModelAgrees    (fidelity, not a clause) that size computation     *)
+(*                      equals the bytes of the serialized payloads        *)
+(*   SoundConnected     a hop that does not leave the pathfinding node -   *)
+(*                      e.g. the first hop of a foreign source - must be   *)
+(*                      an enabled direction                               *)
+(* After every answered Query the payment simulation of Route.tla runs as  *)
+(* silent steps (Send, Forward.., Receive): PaidThrough demands that no    *)
+(* node on the way refuses the HTLC under the forwarding rules of C09 and  *)
+(* that the source can build the onion.                                    *)
 (***************************************************************************)
 EXTENDS Route, Json
 VARIABLE l
